@@ -53,7 +53,7 @@ type SourceParagraph struct {
 	Paragraph
 
 	Maintainer  string
-	Uploaders   []string `delim:","`
+	Uploaders   []string `delim:"," strip:"\n\r\t "`
 	Source      string
 	Priority    string
 	Section     string
